@@ -21,7 +21,8 @@ class C15(CheckBase):
     components = C14.components
     assumptions = ['send-loop raster: a datagram may leave up to 0.12 virtual s after its scheduled time (idle 0.1 s + busy '
                    '0.01 s sleep of the send loop)', 'parameters are read from UNICAST/MULTICAST_REPEAT_PARAMS of the tree under test']
-    expected_probes = ['messages_checked', 'multicast_messages', 'unicast_messages', 'boundary_runs', 'loopback_datagrams']
+    expected_probes = ['messages_checked', 'multicast_messages', 'unicast_messages', 'boundary_runs', 'loopback_datagrams',
+                       'small_send_queue']
     max_steps = 6_000_000
 
     def budget(self, tier):
@@ -30,6 +31,9 @@ class C15(CheckBase):
     def generate(self, rng, tier):
         plan = C14.generate(self, rng, tier)
         plan['bias'] = rng.random() < 0.5
+        # tuning knob: the bounded send queue (10000 entries in production) is small in some runs, so that its
+        # "full" path is reached by an ordinary burst
+        plan['send_queue_size'] = rng.choice([None, None, None, 3, 7])
         plan['faults'] = {'drop': 0.0, 'dup': rng.choice([0.0, 0.2]), 'delay': rng.choice([0.0, 0.2])}
         return plan
 
@@ -94,7 +98,8 @@ class C15(CheckBase):
                     # scheduled times are wall clock (time.time()), udp log is virtual monotonic
                     from dsim import sched as S
                     rt = S.EPOCH0 + real_t + s.wall_skew
-                    if rt < sched_t - 1e-6 or rt > sched_t + 0.12 + 1e-6:
+                    late_ok = ctx.plan.get('send_queue_size') is not None  # (a full queue delays the enqueuing itself)
+                    if rt < sched_t - 1e-6 or (rt > sched_t + 0.12 + 1e-6 and not late_ok):
                         ctx.violation('C15.raster', f'{kind}:{"early" if rt < sched_t else "late"}',
                                       f'{where}: datagram left at {rt - t_enq:.4f}s, scheduled {sched_t - t_enq:.4f}s after enqueue')
                 checked += 1
